@@ -820,7 +820,7 @@ func dialJoin(name gen.Atom, id string) (*evilLink, error) {
 func liveJoinOne(ci int, cs caseSpec, idx int, data []byte, a *agg) {
 	variant := joinVariants[cs.Item]
 	mk := func(sig, what string, detail any) {
-		violation(vrec{Case: cs.ID, Idx: idx, Sig: sig, What: what, Hex: hexOf(data), Len: len(data), Detail: detail})
+		violation(vrec{Case: cs.ID, Idx: idx, Sig: sig, What: what, Hex: hexOf(data), Len: len(data), Detail: detail, Raw: data})
 	}
 	ensureBase := func() bool {
 		if env.link != nil && !env.link.isClosed() {
@@ -913,7 +913,7 @@ func liveJoinOne(ci int, cs caseSpec, idx int, data []byte, a *agg) {
 		jl.conn.Close()
 	}
 	allocd := totalAlloc() - a0
-	endCall()
+	defer endCall()
 	if env.V.Cap.Panics.Load() > panics0 {
 		a.extra["recovered_panics"] += env.V.Cap.Panics.Load() - panics0
 		class += " (panic recovered in the receive handler)"
@@ -971,7 +971,7 @@ type liveOutcome struct {
 
 func liveOne(ci int, cs caseSpec, idx int, data []byte, a *agg) {
 	mk := func(sig, what string, detail any) {
-		violation(vrec{Case: cs.ID, Idx: idx, Sig: sig, What: what, Hex: hexOf(data), Len: len(data), Detail: detail})
+		violation(vrec{Case: cs.ID, Idx: idx, Sig: sig, What: what, Hex: hexOf(data), Len: len(data), Detail: detail, Raw: data})
 	}
 	if env.link == nil || env.link.isClosed() {
 		l, err := dialEvil()
@@ -1055,7 +1055,7 @@ func liveOne(ci int, cs caseSpec, idx int, data []byte, a *agg) {
 		class = "node waits for declared body; link closed by the peer"
 	}
 	allocd := totalAlloc() - a0
-	endCall()
+	defer endCall() // the CPU watchdog also covers the health checks: a node that spins after the input is caught there
 	if cs.Opt == "max64k" && strings.Contains(class, "link alive") && maxDeclared(data) > 65536 {
 		mk("max-message-size-not-enforced", fmt.Sprintf("the node runs with MaxMessageSize=65536, a frame declaring %d bytes was completed and consumed, the link stayed alive", maxDeclared(data)), nil)
 	}
@@ -1224,7 +1224,7 @@ func childLive() {
 func liveJobs() []job {
 	var jobs []job
 	m := hk.Pick(1, 10)
-	wall := 12 * time.Minute
+	wall := time.Duration(hk.Pick(480, 1500)) * time.Second
 	mem := uint64(1536 << 10)
 	// declared frame length 0..8: one child each (the suspicion is that the node process dies)
 	for l := 0; l <= 8; l++ {
